@@ -5,6 +5,26 @@ from .paths import *
 ACC = {'read': 'R', 'read_unsafe': 'R', 'write': 'W', 'write_unsafe': 'W'}
 
 
+def ptr_subterms(t):
+    """Sub-terms along pointer derivations only: index operands of slice accessors are not followed."""
+    st = [t]
+    while st:
+        x = st.pop()
+        if not isinstance(x, tuple) or not x:
+            continue
+        if isinstance(x[0], str):
+            yield x
+            if x[0] == 'call' and (x[2].endswith('::get') or x[2].endswith('::get_mut') or x[2].endswith('::split_child')) and x[3]:
+                st.append(x[3][0])
+                continue
+            rest = x[1:]
+        else:
+            rest = x
+        for y in rest:
+            if isinstance(y, tuple):
+                st.append(y)
+
+
 def mmio_event(e, adts):
     """For a path effect: (kind 'R'/'W', adt, field, value term or None, node) if it is a register access."""
     if e[0] != 'call' or 'safe_mmio::' not in e[2]:
@@ -20,7 +40,7 @@ def mmio_event(e, adts):
     for c in cands:
         if c is None:
             continue
-        for x in subterms(c):
+        for x in ptr_subterms(c):
             if x[0] == 'loc':
                 for p in x[2]:
                     if p[0] == 'f' and len(p) > 2 and p[2] in adts:
